@@ -10,4 +10,6 @@ cbmc --version
 mkdir -p .work/tgt evidence replays
 (cd kani && RUSTFLAGS="--cfg maxohn_rosu_map_verif" cargo kani --only-codegen -Z stubbing \
     --harness smoke::smoke_true --exact --target-dir ../.work/tgt/w0 >/dev/null 2>&1 || true)
+# native validation of the std stubs and the reference models against the real std / crate
+(cd kani && cargo test --offline --test model_validation 2>&1 | tail -3)
 echo "setup ok"
